@@ -281,9 +281,12 @@ def dispatcher_histories(repo):
                          ("connect, connected, disconnect requested", ["connect", "handle_connect", "disconnect"]),
                          ("connect, disconnect requested while still connecting", ["connect", "disconnect"]),
                          ("connect fails at once (the socket library raises from connect() itself: unresolvable host)", ["connect!"])):
-        def lib_connect(itp, label, a, k, env, d, e):
+        fired = []
+
+        def lib_connect(itp, label, a, k, env, d, e, fired=fired):
             # asyncore.dispatcher_with_send.connect(self, host) raising socket.gaierror (an OSError, alias socket.error)
             if label.strip(".()").split(".")[-1] == "connect" and e is not None and "dispatcher" in unparse(e.func):
+                fired.append(1)
                 raise _Raise(("ext", "socket.error", []), "gaierror: name resolution failed")
             return None
         it, cbs, log = harness({"extcall": lib_connect} if steps == ["connect!"] else None)
@@ -300,6 +303,9 @@ def dispatcher_histories(repo):
                     pass
         except (NeedAtom, Budget, DomainGrew, _Raise):
             return None
+        if "connect!" in label or "fails at once" in label:
+            if not fired:
+                return None         # the library's connect was not reached the way this scenario scripts it: not decided
         out.append((c, label, list(log)))
     rel, cn = "yowsup/layers/network/dispatcher/dispatcher_socket.py", "SocketConnectionDispatcher"
     c = repo.cls(rel, cn)
